@@ -5,6 +5,16 @@ import json, os
 HERE = os.path.dirname(os.path.dirname(os.path.abspath(__file__)))
 
 CHECKS = {
+ "C10": dict(
+    design="DESIGN.md §3 C10",
+    technique="mutation-based fuzzing driven by Hypothesis over generated valid requests (exhaustive prefix truncation, byte edits, structure-aware mutants); oracle: nothing escapes, reply is normal or a Client-family fault, no user function ran on a fault",
+    text="Exploration: generated valid requests for XmlDocument/Soap11/Soap12 (validator None/soft/lxml), JSON/YAML/MessagePack/msgpack-rpc (None/soft) and HttpRpc are truncated at every prefix, edited at byte level (flip, delete, insert, duplicate, swap, random bytes) and mutated structure-aware (type-specific nasty leaf values, deletions, duplications, unknown members, wrong kinds and nesting, broken SOAP envelopes, multiref cycles, YAML/JSON/msgpack syntax traps, msgpack-rpc arity/type errors), through the pipeline and WsgiApplication with Content-Type/charset variations; no exception may escape, the reply must be a normal response or a Client-family fault with the documented HTTP status class, and no user function may have run when a fault is returned. Held on everything explored; not a proof.",
+    note="Trusted: the fault decoders of C09; user functions of this check never raise, so a Server fault is attributable to the request. Coverage-guided atheris fuzzing is not part of the registered commands."),
+ "C13": dict(
+    design="DESIGN.md §3 C13",
+    technique="exhaustive grid enumeration + property-based testing (Hypothesis) with client aborts as injected faults; oracles: PEP 3333 event-log automaton, wsgiref.validate, byte-counting wsgi.input, context-close listeners",
+    text="Exploration: every request outcome class (success, fault classes, validation error, unknown method, malformed body, ?wsdl, injected WSDL failure, generator and user-set streams) x CONTENT_LENGTH spelling (absent, empty, smaller, equal, larger, over the limit, non-numeric) x max_content_length around the body length x block_length x chunked on/off x client abort after k chunks, for XmlDocument/Soap11/Json/HttpRpc: start_response exactly once before any chunk with str status/headers, bytes chunks, Content-Length equal to the body size, at most max_content_length and at most the declared length ever read, over-long requests answered with RequestTooLong without running user code, method_context_closed/wsgi_close exactly once and not before the body was handed over (or close() was called). Three grids are enumerated completely in both tiers with Hypothesis-generated cases on top. Held on everything explored; not a proof.",
+    note="Trusted: wsgiref.validate and the harness' single ordered event log."),
  "C04": dict(
     design="DESIGN.md §3 C04",
     technique="property-based testing with type-directed mutation of generated valid requests (Hypothesis); oracle: declared-type walk of everything the recording user function received, Client-family fault otherwise",
